@@ -1,1 +1,68 @@
-// hook body for packed_pattern (included into /repo under cfg(aho_corasick_verif))
+// Hook body included as `crate::packed::pattern::verif`.
+use super::*;
+use alloc::{vec::Vec, sync::Arc};
+
+pub fn kind_to_u8(k: MatchKind) -> u8 {
+    match k {
+        MatchKind::LeftmostFirst => 1,
+        MatchKind::LeftmostLongest => 2,
+    }
+}
+
+pub fn kind_from_u8(k: u8) -> MatchKind {
+    match k {
+        1 => MatchKind::LeftmostFirst,
+        _ => MatchKind::LeftmostLongest,
+    }
+}
+
+/// (kind, by_id, order, minimum_len)
+pub(crate) fn to_raw(p: &Patterns) -> (u8, Vec<Vec<u8>>, Vec<u32>, usize) {
+    (
+        kind_to_u8(p.kind),
+        p.by_id.clone(),
+        p.order.iter().map(|x| x.as_u32()).collect(),
+        p.minimum_len,
+    )
+}
+
+/// Rebuild around borrowed statics; the only loop is over the patterns.
+pub(crate) fn from_parts(
+    kind: u8,
+    by_id: &'static [&'static [u8]],
+    order: &'static [u32],
+    minimum_len: usize,
+) -> Patterns {
+    let mut v: Vec<Vec<u8>> = Vec::with_capacity(by_id.len());
+    for p in by_id {
+        v.push(unsafe {
+            Vec::from_raw_parts(p.as_ptr() as *mut u8, p.len(), p.len())
+        });
+    }
+    let order: Vec<PatternID> = unsafe {
+        Vec::from_raw_parts(
+            order.as_ptr() as *mut PatternID,
+            order.len(),
+            order.len(),
+        )
+    };
+    Patterns {
+        kind: kind_from_u8(kind),
+        by_id: v,
+        order,
+        minimum_len,
+        total_pattern_bytes: 0,
+    }
+}
+
+/// Run the real `set_match_kind` ordering on patterns of the given lengths
+/// (contents are irrelevant to the order) and return the resulting order.
+pub fn order_for_lengths(kind: u8, lens: &[usize]) -> Vec<u32> {
+    let mut p = Patterns::new();
+    for &l in lens {
+        let v = alloc::vec![b'x'; l];
+        p.add(&v);
+    }
+    p.set_match_kind(kind_from_u8(kind));
+    p.order.iter().map(|x| x.as_u32()).collect()
+}
